@@ -41,8 +41,46 @@ class Tok:
         self.owner = owner      # id of the construct this closer closes
 
 
+def mark_absorbable(toks, cinfo, chains):
+    """A lost ']' is *absorbed* (no error, legitimately: brackets do not nest in
+    TeX or in TexSoup) when a later ']' closes the group instead: a later bracket
+    argument of the same command, or - when the command sits directly inside a
+    bracket argument of another command - that argument's ']' and then, in turn,
+    a later bracket argument of that outer command, and so on upwards.  Brace
+    groups and environments stop the climb (their own closer then goes missing)."""
+    for t in toks:
+        if t.closer != ']' or not t.path:
+            continue
+        g = t.path[-1]
+        path = list(t.path)
+        absorbed = False
+        for _ in range(60):
+            info = cinfo.get(g)
+            if not info or info.get('kind') != 'br':
+                break
+            owner = info['owner']
+            chain = chains.get(owner, [])
+            pos = chain.index(g) if g in chain else len(chain)
+            if any(cinfo.get(x, {}).get('kind') == 'br' for x in chain[pos + 1:]):
+                absorbed = True
+                break
+            if cinfo.get(owner, {}).get('kind') != 'cmd':
+                break
+            # the construct directly above the owning command
+            if owner not in path:
+                break
+            k = path.index(owner)
+            if k == 0:
+                break
+            g = path[k - 1]
+            path = path[:k]
+        t.absorbable = absorbed
+
+
 class Doc:
-    def __init__(self, toks, profile):
+    def __init__(self, toks, profile, gen=None):
+        if gen is not None:
+            mark_absorbable(toks, gen.cinfo, gen.chains)
         self.toks = toks
         self.profile = profile
         self.text = ''.join(t.text for t in toks)
@@ -89,6 +127,8 @@ class Gen:
         self.region = ['']
         self.cstack = []
         self.mathdeep = False
+        self.cinfo = {}     # construct id -> {'kind': cmd|br|brace, 'owner': id of the command/environment}
+        self.chains = {}    # owner id -> its argument constructs in order
 
     # -- emit helpers --------------------------------------------------
     def emit(self, text, tag, depth, closer=None, owner=None, own=False):
@@ -179,10 +219,14 @@ class Gen:
         """Argument chain of the current command/environment construct."""
         n = self.r.randrange(nmin, nmax + 1)
         bracket_closers = []
+        owner = self.cstack[-1] if self.cstack else 0
+        chain = self.chains.setdefault(owner, [])
         for _ in range(n):
             br = self.r.random() < 0.3
             o, c, ck = ('[', ']', ']') if br else ('{', '}', '}')
             oid = self.open_c()
+            self.cinfo[oid] = {'kind': 'br' if br else 'brace', 'owner': owner}
+            chain.append(oid)
             self.emit(o, 'open', depth, own=True)
             inner = self.r.randrange(0, 3)
             kinds = None
@@ -194,15 +238,11 @@ class Gen:
             if br:
                 bracket_closers.append(self.toks[-1])
             self.close_c()
-        # losing the ']' of a bracket argument that is followed by another
-        # bracket argument of the same command is absorbed by that later ']'
-        # (brackets do not nest, in TeX as in TexSoup): not a recoverable loss
-        for t in bracket_closers[:-1]:
-            t.absorbable = True
+        # absorbable closers are marked once the document is complete (Doc)
 
     def k_cmd(self, depth, math=False):
         name = self.pick(self.cmds)
-        self.open_c()
+        self.cinfo[self.open_c()] = {'kind': 'cmd'}
         self.emit('\\' + name, 'cmd', depth, own=True)
         self.args(depth, 0, 3, math)
         self.close_c()
@@ -392,7 +432,7 @@ def generate(rng, profile=None, size=None, restricted=False):
             g.deep_narrow(rng.randrange(3, 20), profile == 'alternate')
         else:
             g.body(0, size)
-        return Doc(g.toks, 'restricted-' + profile)
+        return Doc(g.toks, 'restricted-' + profile, g)
     if profile == 'flat':
         g = Gen(rng, ALL_KINDS, size, 2, ws=ws)
         g.body(0, size)
@@ -425,7 +465,7 @@ def generate(rng, profile=None, size=None, restricted=False):
         g.body(0, size)
     else:
         raise AssertionError(profile)
-    return Doc(g.toks, profile)
+    return Doc(g.toks, profile, g)
 
 
 def sizing_sweep():
